@@ -313,6 +313,8 @@ def run(tier, seed, rep):
         cs, tr = carving_space.enumerate_cases(carver, tier, seed)
         if tier == "quick":
             cs = [c for c in cs if (len(c["cells"]) <= 2) or (len(c["cells"]) == 3 and c["cfg"]["output_dtype"] == "float" and c["cfg"]["min_freq"] == 0.1 and (c["dev"] is None or c["dev"]["name"] in ("same", "swap01")))]
+        else:  # thorough: every table up to k=3 (the k=4,5 tables of the carving space are left to C01/C02)
+            cs = [c for c in cs if len(c["cells"]) <= 3]
         for c in cs:
             c["type"] = "carver"
         cases += cs
